@@ -35,6 +35,7 @@ FIELD_PROPS = {
         "cache": ["C06", "C11"],
     },
     "lay": {},
+    "crash": {},
     "blk": {
         "block-events": ["C09"],
         "hyb-ret": ["C01", "C17", "C12"],
@@ -640,5 +641,53 @@ CLAIMS.update({
                     "of writes is tested by a watchdog, not proved",
             "technique": "Lean 4 proof (invariant of the block-manager event system over all event sequences) + trace-validating "
                          "correspondence on the manager's own event log"},
+})
+PROPS.update({
+    "C04": {
+        "domain": "crash",
+        "proof_module": "FoyerProofs.C04",
+        "extra_modules": ["FoyerProofs.C01", "FoyerProofs.C07"],
+        "theorems": ["Foyer.Blk.scan_subset", "Foyer.Blk.recoverBlock_subset", "Foyer.Blk.guardSeq_subset",
+                     "Foyer.Hyb.recovery_picks_latest", "Foyer.Hyb.recovery_honours_tombstones",
+                     "Foyer.Blk.recover_reads_back", "Foyer.Blk.scan_reads_back"],
+        "monitor_props": ["C04"],
+        "reject_is_fail_fields": [],
+        "campaigns": {
+            "quick": [{"name": "crash-enum", "args": ["cases=60", "maxops=16", "watchdog=20"]}],
+            "thorough": [{"name": "crash-enum", "args": ["cases=1500", "maxops=30", "watchdog=30"]}],
+        },
+        "nontrivial": r"op=crash at=[1-9]",
+        "rule": "a workload of inserts (all size classes), overwrites, storage-writer inserts, removes, waits, evictions and "
+                "hold/unhold batches runs on the real hybrid cache over the recording sim io engine (write-on-insertion and "
+                "write-on-eviction, tombstone log on/off, a 12-block device without reclaim or a 4-block device with reclaim); "
+                "then for EVERY prefix of the device writes it issued, and for every page-granular tear of the write at the crash "
+                "point, a device image is built, a fresh store is opened on it (quiet recovery) and every key is read; at one in six "
+                "crash points a new version is written after the restart, the store is restarted again and read again; every read "
+                "vector is compared with the recovery model's prediction and fed to the C04 monitor; a watchdog reports stalls; "
+                "non-trivial = a crash point after at least one write; distinct = distinct (cfg, workload)",
+        "trusted_base": TB_COMMON,
+        "assumptions": [
+            "a crash leaves exactly a prefix of the issued writes on the device, the last one possibly torn at 4 KiB page "
+            "granularity (no reordering inside the prefix, no torn single-page write); one flusher",
+            "the harness describes each write (entries, decoded blob index, tombstone slots) with the real parsers; the model "
+            "works on those descriptions, not on raw bytes (the byte formats are C08's)",
+            "the theorems cover the building blocks (scan/recover never invent entries, recovery keeps the newest copy and "
+            "honours newer tombstones, a block written in sequence order is read back exactly); the end-to-end statement over "
+            "write-log prefixes is checked by the exhaustive crash-point enumeration, not proved",
+        ],
+    },
+})
+CLAIMS.update({
+    "C04": {"text": "Lean 4 theorems about the recovery model: whatever the device holds, the scanner and the per-block recovery "
+                    "only return entries listed in blob index pages that are on the device; recovery keeps per hash the copy with the "
+                    "highest sequence unless a logged tombstone is at least as new; a block written in sequence order is read back "
+                    "exactly. Tied to /repo by exhaustive crash-point enumeration: for every prefix (and page tear) of the write log "
+                    "of generated workloads the reopened real store's reads equal the model's, and satisfy the C04 monitor (no "
+                    "garbage, acknowledged versions/deletes survive while nothing was reclaimed, post-restart writes win)",
+            "note": "trusted: Lean kernel; axioms propext/Classical.choice/Quot.sound; harness + sim io engine + driver; PARTIAL: "
+                    "the prefix-level statement is established by enumeration over generated workloads, the theorems are about the "
+                    "recovery functions; crashes reorder nothing and tear only at page granularity",
+            "technique": "Lean 4 proof (scanner/recovery soundness lemmas) + exhaustive crash-point enumeration validated against "
+                         "the recovery model"},
 })
 NOT_CLAIMED = {}
